@@ -18,7 +18,7 @@ from . import c01
 
 ID = 'C03'
 LEVEL = 'other'
-TECHNIQUE = 'jaxpr-level symbolic execution of A.mv and A.T.mv (incl. jax.linear_transpose output) + z3 on the trilinear adjoint identity'
+TECHNIQUE = 'jaxpr-level symbolic execution of A.mv and A.T.mv (incl. jax.linear_transpose output) + z3 on the trilinear adjoint identity (complex-valued family: bilinear identity exactly in Q(i))'
 EXPLANATION = ('For each operator program A (built from the real classes inside the trace, all float parameters symbolic) '
                'the jaxprs of A.mv, A.T.mv and A.T.T.mv are interpreted exactly; z3 decides '
                '<A x,y> != <x,A.T y> (one polynomial identity in params, x, y) and A.T.T.mv(x) != A.mv(x). '
@@ -47,6 +47,8 @@ def cases(tier, seed):
     out = [TOAST, ('toast', 'T')]
     from .. import cplx
     out += [('cplx', e) for e in cplx.expressions(tier)]
+    from ..catalogue import other_stokes_programs
+    out += [(fam, e) for fam in ('iquv', 'qu') for e in other_stokes_programs(fam)]
     rnd = random.Random(f'c03-{seed}')
     for fam in ('vec', 'mat', 'stokes', 'tree'):
         base = [('leaf', n, 0) for n in FAM[fam]]
